@@ -4386,6 +4386,15 @@ class TLSConnection(TLSRecordLayer):
                 new_ext = clientHello.getExtension(
                     ExtensionType.pre_shared_key)
                 if new_ext and old_ext:
+                    # the updated extension did not go through the sanity
+                    # checks of the first Client Hello
+                    if not new_ext.identities or not new_ext.binders or \
+                            len(new_ext.identities) != len(new_ext.binders):
+                        for result in self._sendError(
+                                AlertDescription.decode_error,
+                                "Malformed pre_shared_key extension in "
+                                "second Client Hello"):
+                            yield result
                     clientHello1.extensions[-1] = new_ext
                     if clientHello.extensions[-1] is not new_ext:
                         for result in self._sendError(
